@@ -107,6 +107,20 @@ def gen(cls, idx, rng, tier):
         for _ in range(rng.randint(0, 3)):
             nets.append((rng.choice(vertices)[0],
                          [rng.choice(vertices)[0]], 1.0))
+    if rng.random() < .3:
+        # reservations of nothing ("null constraints"): anywhere, also inside
+        # or at the edge of a real reservation, in any position of the list
+        for _ in range(rng.randint(1, 3)):
+            name = rng.choice(sorted(m["res"]))
+            at = rng.randint(0, m["res"][name])
+            real = [c for c in cons if c[0] == "reserve" and c[1] == name]
+            if real and rng.random() < .6:
+                c = rng.choice(real)
+                at = rng.choice([c[2], c[3], (c[2] + c[3]) // 2,
+                                 max(c[2], c[3] - 1)])
+            loc = rng.choice([None, rng.choice(chips)]) if chips else None
+            cons.insert(rng.randrange(len(cons) + 1),
+                        ("reserve", name, at, at, loc))
     if rng.random() < .12:
         # the same problem in much larger units (a 64-bit address space):
         # every quantity of one resource is multiplied by a number that a
